@@ -35,7 +35,7 @@ type kase struct {
 }
 
 var clients = []string{
-	"auth:", "auth:a", "auth:b", "auth:a,b", "auth:x", "auth:" + nenet.AuthenticatedNonSpecificNextProto, "auth:" + nenet.UnauthenticatedNextProto,
+	"auth:", "auth:a", "auth:b", "auth:a,b", "auth:x", "auth:PREF,a", "auth:PREF,x", "auth:" + nenet.AuthenticatedNonSpecificNextProto, "auth:" + nenet.UnauthenticatedNextProto,
 	"base:", "base:a", "base:" + nenet.AuthenticatedNonSpecificNextProto, "base:" + nenet.UnauthenticatedNextProto, "base:" + nodeenrollment.CertificatePreferenceV1Prefix + "xyz",
 	"fetch",
 }
@@ -153,6 +153,11 @@ func (w *world) one(k kase, r *engine.Report) (string, string) {
 		}
 		nonce := harness.Bytes("c17", 32)
 		b := w.node.Creds.CertificateBundles[0]
+		for i, e := range extras {
+			if e == "PREF" { // a valid certificate-preference entry ahead of the other extras
+				extras[i] = nodeenrollment.CertificatePreferenceV1Prefix + harness.CaKeyId(b.CaCertificateDer)
+			}
+		}
 		c := &harness.AuthClient{Request: &types.GenerateServerCertificatesRequest{CertificatePublicKeyPkix: w.node.K.Pkix, Nonce: nonce, NonceSignature: w.node.K.Sign(nonce)},
 			Chain: [][]byte{b.CertificateDer, b.CaCertificateDer}, Key: w.node.K.Priv, Preference: harness.CaKeyId(b.CaCertificateDer), ExtraProtos: extras}
 		conn, err := c.Connect(addr)
@@ -241,6 +246,9 @@ func (w *world) one(k kase, r *engine.Report) (string, string) {
 		extras := strings.Split(strings.TrimPrefix(k.Client, "auth:"), ",")
 		specific := false
 		for _, e := range extras {
+			if e == "PREF" {
+				continue
+			}
 			if e != "" && has[e] {
 				allowed["@"+e] = true
 				specific = true
@@ -335,7 +343,7 @@ func init() {
 	engine.Register(&engine.CheckDef{
 		ID:    "C17",
 		Level: "exploration",
-		Rule: "every subset of sub-listeners {a, b, __AUTH__, __UNAUTH__} (16) x native connections {off,on} x 13 client kinds (authenticated with extras [], [a], [b], [a,b], [x], [__AUTH__], [__UNAUTH__]; base-TLS clients offering [], [a], [__AUTH__], [__UNAUTH__], a certificate-preference entry; a fetch-only client) = 416 real topologies over the real InterceptingListener + SplitListener; the receiving sub-listener answers with its name so routing is observed deterministically; afterwards the base listener is closed and every sub-listener must report net.ErrClosed; " +
+		Rule: "every subset of sub-listeners {a, b, __AUTH__, __UNAUTH__} (16) x native connections {off,on} x 15 client kinds (authenticated with extras [], [a], [b], [a,b], [x], [certificate-preference entry, a], [certificate-preference entry, x], [__AUTH__], [__UNAUTH__]; base-TLS clients offering [], [a], [__AUTH__], [__UNAUTH__], a certificate-preference entry; a fetch-only client) = 480 real topologies over the real InterceptingListener + SplitListener; the receiving sub-listener answers with its name so routing is observed deterministically; afterwards the base listener is closed and every sub-listener must report net.ErrClosed; " +
 			"distinct_nontrivial counts topologies (distinct by construction) that were routed and judged",
 		Assumptions: []string{"when several registered names match the client's extras any of them may receive the connection (map iteration order)", "GetListener after close is documented as unsupported and not exercised"},
 		Shards:      func(c *engine.Ctx) int { return 8 },
